@@ -156,6 +156,13 @@ func registerVerifExternals(sh *Shared) {
 		return int(v)
 	})
 	// concretize(x): force a value to be concrete by case-splitting
+	// pickU64(x): fix x to some value the path allows, without exploring the others (witness search)
+	reg(mainPath+".pickU64", func(fr *frame, args []value) value {
+		if s, ok := args[0].(sym); ok {
+			return concreteOfKind(s.k, fr.i.ex.Pick(s.t))
+		}
+		return args[0]
+	})
 	reg(mainPath+".concretizeInt", func(fr *frame, args []value) value { return fr.i.concretizeInt(args[0]) })
 	reg(mainPath+".concretizeU64", func(fr *frame, args []value) value { return fr.i.concretizeInt(args[0]) })
 	// runIsolated(f) runs f and reports whether it ended through Goexit
